@@ -57,7 +57,7 @@ var c03Sanctioned = map[string][]string{
 		"strings.HasPrefix(regexp.Regexp.ReplaceAllString(reExtras,strings.SplitN(…,…,…)[0:int],\"\":string),\"-\":string)",
 	},
 	"extractor/filesystem/language/ruby/gemfilelock.Extractor.Extract": {
-		"!slices.Contains(\"GIT\":string,\"GEM\":string,\"PATH\":string,\"PLUGIN SOURCE\":string,…#0[ι].name)",
+		"!in{\"GEM\":string,\"GIT\":string,\"PATH\":string,\"PLUGIN SOURCE\":string}(…#0[ι].name)",
 		"builtin.len(regexp.Regexp.FindStringSubmatch(nameVersionRegexp,….specs[ι])) < 3:int",
 		"builtin.len(regexp.Regexp.FindStringSubmatch(nameVersionRegexp,….specs[ι])[1:int]) == 0",
 		"builtin.len(regexp.Regexp.FindStringSubmatch(nameVersionRegexp,….specs[ι])[2:int]) == 0",
@@ -70,11 +70,10 @@ var c03Sanctioned = map[string][]string{
 	},
 	"extractor/filesystem/os/apk.Extractor.extractFromInput": {
 		"builtin.len(extractor/filesystem/os/apk.parseSingleApkRecord(bufio.NewScanner(…))#0) == 0",
-		"builtin.len(local:*extractor.Package.Name) == 0",
-		"builtin.len(local:*extractor.Package.Version) == 0",
+		"builtin.len(extractor/filesystem/os/apk.parseSingleApkRecord(bufio.NewScanner(…))#0[\"P\":string]) == 0",
+		"builtin.len(extractor/filesystem/os/apk.parseSingleApkRecord(bufio.NewScanner(…))#0[\"V\":string]) == 0",
 		"context.Context.Err(param1) != nil:error",
 		"extractor/filesystem/os/apk.parseSingleApkRecord(bufio.NewScanner(….Reader))#1 != nil:error",
-		"false:bool",
 	},
 	"extractor/filesystem/os/dpkg.Extractor.extractFromInput": {
 		"!errors.Is(net/textproto.Reader.ReadMIMEHeader(net/textproto.NewReader(…))#1,EOF)",
